@@ -134,6 +134,17 @@ fn generate_inner(prop: &str, run_seed: u64, log: Option<std::sync::Arc<std::syn
             if bi < pre {
                 // already performed by the generator: account for it, do not read twice
                 w.account(&op);
+                if let Some((ci, c)) = &g.peek_crash {
+                    if *ci == bi {
+                        let api = match &op {
+                            Op::Read { what: 1, .. } => "has_staging",
+                            Op::Read { what: 2, .. } => "in_conflict",
+                            _ => "read",
+                        };
+                        stop = Some(w.crash(api, c.clone()));
+                        break 'outer;
+                    }
+                }
                 continue;
             }
             if let Err(s) = w.exec(&op) {
